@@ -2,6 +2,6 @@ SPECIFICATION Spec
 CONSTANTS
   NPs = {2}
   MaxFields = 3
-  Later = {"tx", "sigK", "grp"}
-  IndDims = {"perms", "fields"}
+  Later = {"tx", "sigK"}
+  IndDims = {}
 INVARIANTS KeepDisjoint NoSigNoPerms FlagsDoNotSign Emit
